@@ -141,6 +141,19 @@ class Ctx:
             with open(dst, "a") as f:
                 f.write("\n".join(want) + "\n")
 
+    def harness_dir(self):
+        """The harness module; when VERIF_REPO points elsewhere than /repo, a scratch copy whose go.mod
+        replaces the repository module by that tree."""
+        if REPO == "/repo":
+            return HARNESS
+        d = self.path("harness-src")
+        if not os.path.isdir(d):
+            shutil.copytree(HARNESS, d)
+            gm = os.path.join(d, "go.mod")
+            txt = open(gm).read().replace("=> /repo", "=> " + REPO)
+            open(gm, "w").write(txt)
+        return d
+
     def go_build(self, pkg, *, tags="verif", race=False, out=None):
         self.go_sync()
         out = out or self.path("bin-" + os.path.basename(pkg) + ("-race" if race else ""))
@@ -148,7 +161,7 @@ class Ctx:
         if race:
             cmd.append("-race")
         cmd.append(pkg)
-        p = subprocess.run(cmd, cwd=HARNESS, env=goenv(), stdout=subprocess.PIPE, stderr=subprocess.STDOUT,
+        p = subprocess.run(cmd, cwd=self.harness_dir(), env=goenv(), stdout=subprocess.PIPE, stderr=subprocess.STDOUT,
                            text=True)
         if p.returncode != 0:
             # a tree that does not compile is not a verdict about the property
